@@ -1,13 +1,29 @@
 #!/bin/sh
-# Runs every self-test of the machinery (takes 1-3 hours on 16 cores) and leaves the results in selftest/last_*.json / last_summary.txt
+# Runs every self-test of the machinery (takes 2-3 hours on 16 cores) and leaves the results in selftest/last_*.json / last_summary.txt
 here="$(cd "$(dirname "$0")/.." && pwd)"
 cd "$here" || exit 2
 {
 echo "== determinism"; python3 selftest/determinism.py; echo "exit=$?"
 echo "== known-finding path"; selftest/known_finding_path.sh; echo "exit=$?"
-echo "== planned mutants"; python3 selftest/run_mutants.py mutants > selftest/last_mutants.log 2>&1; echo "exit=$?"
-echo "== benign refactors"; python3 selftest/run_mutants.py benign > selftest/last_benign.log 2>&1; echo "exit=$?"
-echo "== seeded changes"; python3 selftest/run_mutants.py seeded > selftest/last_seeded.log 2>&1; echo "exit=$?"
+# two suites at a time (each check run uses all cores for part of its time only)
+echo "== planned mutants + benign refactors (concurrently)"
+python3 selftest/run_mutants.py mutants > selftest/last_mutants.log 2>&1 & pm=$!
+python3 selftest/run_mutants.py benign > selftest/last_benign.log 2>&1 & pb=$!
+wait $pm; echo "mutants exit=$?"; wait $pb; echo "benign exit=$?"
+echo "== seeded changes (two shards concurrently)"
+python3 selftest/run_mutants.py seeded 0/2 > selftest/last_seeded.0.log 2>&1 & p0=$!
+python3 selftest/run_mutants.py seeded 1/2 > selftest/last_seeded.1.log 2>&1 & p1=$!
+wait $p0; echo "seeded shard 0 exit=$?"; wait $p1; echo "seeded shard 1 exit=$?"
+cat selftest/last_seeded.0.log selftest/last_seeded.1.log | sort > selftest/last_seeded.log; rm -f selftest/last_seeded.0.log selftest/last_seeded.1.log
+python3 - <<'PY'
+import json, os
+rs = []
+for k in (0, 1):
+    p = f"selftest/last_seeded.{k}of2.json"
+    rs += json.load(open(p)); os.unlink(p)
+rs.sort(key=lambda r: r.get("patch", ""))
+json.dump(rs, open("selftest/last_seeded.json", "w"), indent=1)
+PY
 python3 - <<'PY'
 import json
 for name in ("mutants", "benign", "seeded"):
